@@ -289,13 +289,13 @@ def run(ctx: Ctx):
     local_all = list(rig.exhaustive_cases(base_cfg, rig.LOCAL_PREFIX, 3, rig.local_alphabet()))
     for k, c in _sample(fam_rng, local_all, len(local_all)):
         cases.append((f"exhlocal:{k}", c))
-    if ctx.thorough:   # depth 4: a seeded sample of 6 000 out of 14 641 sequences for each of the two newest families
-        for k, c in _sample(fam_rng, list(rig.exhaustive_cases(base_cfg, rig.LOCAL_PREFIX, 4, rig.local_alphabet())), 6000):
+    if ctx.thorough:   # depth 4: a seeded sample of 4 000 out of 14 641 sequences for each of the two newest families
+        for k, c in _sample(fam_rng, list(rig.exhaustive_cases(base_cfg, rig.LOCAL_PREFIX, 4, rig.local_alphabet())), 4000):
             cases.append((f"exhlocal4:{k}", c))
-        for k, c in _sample(fam_rng, list(rig.exhaustive_cases(cfgm, [login], 4, rig.medium_alphabet())), 6000):
+        for k, c in _sample(fam_rng, list(rig.exhaustive_cases(cfgm, [login], 4, rig.medium_alphabet())), 4000):
             cases.append((f"exhmedium4:{k}", c))
     rng = ctx.rng.fork("sess")
-    for k in range(ctx.scale(500, 6000)):
+    for k in range(ctx.scale(500, 5000)):
         gc_case = rig.gen_case(rng, max_ops=ctx.scale(30, 60))
         if k % 2 == 1:   # every second random trace sends its top-level operations as agent actions
             gc_case = dict(gc_case, cfg=dict(gc_case["cfg"], via="action"))
